@@ -123,6 +123,8 @@ def eval_spec(st, spec, meshm, nvdim, dtype):
             else:
                 a[idx] = parts["default"][idx]
         return a
+    if t == "arrayof":
+        return np.array(st.h[spec["src"]].fm.array, copy=True)
     if t == "field":
         src = st.h[spec["src"]]
         sm = src.box.v
@@ -155,6 +157,8 @@ def lib_spec(st, spec, meshm, nvdim, dtype, fns):
         return {k: lib_spec(st, v, meshm, nvdim, dtype, fns) for k, v in spec["d"].items()}
     if t == "field":
         return st.h[spec["src"]].obj
+    if t == "arrayof":
+        return st.h[spec["src"]].obj.array  # the very ndarray another field hands out
     if t == "raw":
         return dec(spec["v"])
     if t == "object":
@@ -268,6 +272,11 @@ def op_update(st, o):
         return "skipped"
     if spec["t"] == "array" and spec.get("squeeze") and nvdim != 1:
         return "skipped"
+    if spec["t"] == "arrayof":
+        src = st.h.get(spec["src"])
+        if src is None or src.kind != "F" or spec["src"] == o["on"] or src.fm.array.shape != h.fm.array.shape or src.fm.array.dtype.kind != "f" or dtype not in (None, "float"):
+            return "skipped"
+        st.stats.probe("array_of_other_field")
     if spec["t"] == "const" and nvdim == 1 and np.shape(dec(spec["v"])) == tuple(mm.n):
         return "skipped"  # [v] on a one-cell 1-d mesh is read as a per-cell array: ambiguous, no C02 clause decides
     fns = []
@@ -454,6 +463,24 @@ def op_getnorm(st, o):
             st.stats.oracle("value", 3)
     st.stats.oracle("value")
     return which
+
+
+@op("F.rename")
+def op_frename(st, o):
+    """The caller renames the component labels of ONE field; its mapping is re-keyed,
+    every other field (a rotated copy shares nothing with its source) is unaffected."""
+    h = st.h[o["on"]]
+    if h.kind != "F" or h.fm.nvdim < 2 or not h.fm.vdims or len(o["vdims"]) != h.fm.nvdim:
+        return "skipped"
+    new = list(o["vdims"])
+    res = sut(setattr, h.obj, "vdims", new)
+    expect_ok(res, f"field.vdims = {new}")
+    old = h.fm.vdims
+    h.fm.mapping = {n: h.fm.mapping[k] for n, k in zip(new, old) if k in h.fm.mapping}
+    h.fm.vdims = new
+    st.stats.probe("rename_labels")
+    st.stats.oracle("A")
+    return "renamed"
 
 
 @op("F.poke")
@@ -680,6 +707,11 @@ def op_unary(st, o):
         return "skipped"
     res = sut(UNARY[o["f"]], h.obj)
     obj = expect_ok(res, f"{o['f']}(field)")
+    if obj is h.obj and "valid" not in st.predict:
+        # unary plus hands back the operand itself (see findings/C08); outside the validity
+        # profile no second handle is created for the same object
+        st.stats.probe("result_is_operand")
+        return "pos-returned-operand"
     if obj is h.obj:
         st.stats.probe("result_is_operand")
         if "valid" in st.predict:
@@ -749,10 +781,11 @@ def op_vecop(st, o):
         return "skipped"
     if f == "cross" and ha.fm.nvdim != 3:
         return "skipped"
-    if ha.fm.array.dtype.kind == "c" or np.asarray(barr).dtype.kind == "c":
+    cplx = ha.fm.array.dtype.kind == "c" or np.asarray(barr).dtype.kind == "c"
+    if cplx and f == "angle":
         return "skipped"
-    a = ha.fm.array.astype(float)
-    b = np.broadcast_to(np.asarray(barr, dtype=float), a.shape)
+    a = ha.fm.array.astype(complex if cplx else float)
+    b = np.broadcast_to(np.asarray(barr, dtype=complex if cplx else float), a.shape)
     if f == "dot":
         call = (lambda: ha.obj @ bobj) if o.get("operator") else (lambda: ha.obj.dot(bobj))
         arr = (a * b).sum(axis=-1, keepdims=True)
@@ -808,6 +841,11 @@ def op_lshift(st, o):
         return r
 
     res = sut(call)
+    if res.raised and st.prop == "C08" and any(h.box is not h0.box for h in hs):
+        # << insists on bit-identical meshes; equal-but-distinct mesh objects may differ in
+        # the last digit after a rotation - not a validity clause
+        st.stats.hit("observed/derive_raised:lshift")
+        return "derive-raised"
     obj = expect_ok(res, f"<< of {len(hs)} fields")
     arr = np.concatenate([h.fm.array for h in hs], axis=-1)
     valid = np.logical_and.reduce([h.fm.valid for h in hs])
@@ -928,6 +966,30 @@ def op_ufunc(st, o):
     # it is adopted
     _finish_result(st, o, obj, ha, np.asarray(arr), np.array(obj.valid, dtype=bool, copy=True), o["f"] in INEXACT)
     return o["f"]
+
+
+@op("A.inplace")
+def op_ainplace(st, o):
+    """np.<ufunc>(a, x, out=a): the caller updates a field in place through the ufunc
+    protocol; every later expression must see the new values."""
+    h = st.h[o["on"]]
+    if h.kind != "F" or h.fm.array.dtype.kind != "f":
+        return "skipped"
+    uf = {"add": np.add, "multiply": np.multiply, "subtract": np.subtract}[o["f"]]
+    x = dec(o["x"])
+    res = sut(lambda: uf(h.obj, x, out=h.obj))
+    expect_ok(res, f"np.{o['f']}(a, {x}, out=a)")
+    want = uf(h.fm.array, x)
+    got = np.asarray(h.obj.array)
+    if "array" in st.predict:
+        if got.shape != want.shape or not arrays_equal(got, want):
+            raise Violation("result.array", f"np.{o['f']}(a, {x}, out=a) did not update a in place to the numpy result", preds=[o["f"], "out"], kind="value")
+        h.fm.array = want
+    else:
+        h.fm.array = np.array(got, copy=True)
+    st.stats.probe("inplace_ufunc")
+    st.stats.oracle("H")
+    return "inplace-ufunc"
 
 
 @op("A.reject")
